@@ -20,7 +20,8 @@
      gomod_named, have_gomod, root_gover, pass1_errs, pre_class, step, pass2,
      check_files_with, check_files, checked_of, cf_err, zerr (ZE_xxx)
      entry (mkEntry), zip_prefix, check_module, zstep, check_zip
-     tnode (TFile | TDir), sort_tree, walk, list_files_in_dir, tree_gover, check_dir *)
+     tnode (TFile | TDir), sort_tree, walk, list_files_in_dir, tree_gover, check_dir,
+     mem_path, file_eqb, files_eqb, nodup_strs, ferr_code, pre_class_eqb, dir_list_condition *)
 From Verif.Base Require Import Bytes Utf8 PathClean.
 From Verif.Gen Require Import GenConsts GenUnicode.
 From Verif.Semver Require Model.
@@ -468,3 +469,70 @@ Definition check_dir (dir : str) (ch : list (str * tnode)) : checked * option ze
                        (map (fun pe => (j (fst pe), snd pe)) (c_invalid cf))
                        (c_sizeerr cf) (c_fuel cf) in
   (cf', cf_err cf').
+
+(* ---- the decidable side condition of dir_vs_list_agree (Zip/ProofsDirList.v) ---------------
+
+   For a directory tree, compare the pruned listing of listFilesInDir with the plain list of
+   all regular files: the pruned list is the plain list minus some files; every dropped file is
+   omitted by checkFiles before the collision check (vendored, in a nested module); for every
+   kept file the path-only decisions are the same with the go.mod directories of either list;
+   both lists select the same go version.  The condition is evaluated by the model on every
+   generated tree (dispatcher function "zip.DirListCondition"). *)
+
+Definition mem_path (l : list file) (f : file) : bool :=
+  existsb (fun g => str_eqb (f_path g) (f_path f)) l.
+
+Definition fmode_code (m : fmode) : Z :=
+  match m with MRegular => 0 | MDir => 1 | MSymlink => 2 | MOther => 3 end.
+
+Definition file_eqb (a b : file) : bool :=
+  str_eqb (f_path a) (f_path b) && Bool.eqb (f_lstat_ok a) (f_lstat_ok b)
+  && (fmode_code (f_mode a) =? fmode_code (f_mode b)) && (f_size a =? f_size b)
+  && Bool.eqb (f_open_ok a) (f_open_ok b) && str_eqb (f_content a) (f_content b)
+  && Bool.eqb (f_ge124 a) (f_ge124 b).
+
+Fixpoint files_eqb (a b : list file) : bool :=
+  match a, b with
+  | [], [] => true
+  | x :: a', y :: b' => file_eqb x y && files_eqb a' b'
+  | _, _ => false
+  end.
+
+Fixpoint nodup_strs (l : list str) : bool :=
+  match l with
+  | [] => true
+  | x :: r => negb (existsb (str_eqb x) r) && nodup_strs r
+  end.
+
+Definition ferr_code (e : ferr) : Z :=
+  match e with
+  | FE_NotClean => 0 | FE_NotRelative => 1 | FE_BadPath => 2 | FE_GoModCase => 3 | FE_Lstat => 4
+  | FE_CollCase => 5 | FE_CollFileDir => 6 | FE_CollMultiple => 7 | FE_GoModSize => 8
+  | FE_LicenseSize => 9 | FE_NoPrefix => 10 | FE_GoModNotRoot => 11 | FE_Vendored => 12
+  | FE_SubmoduleFile => 13 | FE_HgArchival => 14 | FE_Symlink => 15 | FE_NotRegular => 16
+  | FE_VCS => 17 | FE_SubmoduleDir => 18
+  end.
+
+Definition pre_class_eqb (a b : option (bool * ferr)) : bool :=
+  match a, b with
+  | None, None => true
+  | Some (x, e), Some (y, e') => Bool.eqb x y && (ferr_code e =? ferr_code e')
+  | _, _ => false
+  end.
+
+Definition dir_list_condition (ch : list (str * tnode)) : bool :=
+  let fa := all_regular_files ch in
+  let fl := fst (list_files_in_dir ch) in
+  let ge := root_gover fa in
+  files_eqb (filter (mem_path fl) fa) fl
+  && nodup_strs (map f_path fa)
+  && forallb f_lstat_ok fa
+  && Bool.eqb (root_gover fl) ge
+  && forallb (fun f =>
+                if mem_path fl f
+                then pre_class_eqb (pre_class ge (have_gomod fa) (f_path f))
+                                   (pre_class ge (have_gomod fl) (f_path f))
+                else match pre_class ge (have_gomod fa) (f_path f) with
+                     | Some (true, _) => true
+                     | _ => false
+                     end) fa.
